@@ -29,7 +29,9 @@ func checkC10(c *Ctx) error {
 	k.E.Workers = 12
 	k.E.MaxSteps = 3_000_000
 	allow := k.E.AllowPkg
-	k.E.AllowPkg = func(p string) bool { return allow(p) || p == "go/types" || p == "go/constant" || p == "sync/atomic" || p == "go/version" || p == "internal/gover" || p == "internal/types/errors" || p == "math/big" }
+	k.E.AllowPkg = func(p string) bool {
+		return allow(p) || p == "go/types" || p == "go/constant" || p == "sync/atomic" || p == "go/version" || p == "internal/gover" || p == "internal/types/errors" || p == "math/big"
+	}
 	np := 2
 	if c.Thorough() {
 		np = 3
